@@ -10,6 +10,7 @@ import (
 	"encoding/json"
 	"fmt"
 	"os"
+	"sync"
 	"time"
 
 	"github.com/semihalev/sdns/zzverif/vlib"
@@ -95,6 +96,13 @@ func replay(r *vlib.Run, raw json.RawMessage) {
 			r.Fatalf("replay: %v", err)
 		}
 		replayHist(r, c)
+	case "full":
+		var c fullCase
+		if err := json.Unmarshal(raw, &c); err != nil {
+			r.Fatalf("replay: %v", err)
+		}
+		c.Ops = nil
+		runFullCase(r, c)
 	default:
 		r.Fatalf("replay: unknown case kind %q", k.Kind)
 	}
@@ -112,18 +120,120 @@ func main() {
 		replay(r, raw)
 		r.Finish(rule)
 	}
-	if os.Getenv("C13_MODE") == "burst" {
+	switch os.Getenv("C13_MODE") {
+	case "burst":
 		runBurstChild(r)
+		requireBurst(r)
+		r.Finish(rule)
+	case "full":
+		runFullChild(r)
+		requireFull(r)
 		r.Finish(rule)
 	}
-	runHistories(r)
 
+	// The three parts are independent processes' worth of state (the
+	// middleware registry is process-global): the race-instrumented burst
+	// child and the full-pipeline child run next to the histories.
+	var wg sync.WaitGroup
 	pfx := r.RacePrefix("burst")
-	res := r.Child("burst", nil, vlib.BinPath("c13", "race"), nil,
-		[]string{vlib.RaceEnv(pfx), "C13_MODE=burst"}, time.Duration(r.N(150, 1500))*time.Second)
-	if !res.HasState {
-		r.Inconclusive(fmt.Sprintf("race child did not finish (exit=%d timeout=%v err=%v log=%s)", res.ExitCode, res.TimedOut, res.Err, res.Output))
-	}
+	wg.Add(2)
+	go func() {
+		defer wg.Done()
+		res := r.Child("burst", nil, vlib.BinPath("c13", "race"), nil,
+			[]string{vlib.RaceEnv(pfx), "C13_MODE=burst"}, time.Duration(r.N(240, 2400))*time.Second)
+		if !res.HasState {
+			r.Inconclusive(fmt.Sprintf("race child did not finish (exit=%d timeout=%v err=%v log=%s)", res.ExitCode, res.TimedOut, res.Err, res.Output))
+		}
+	}()
+	go func() {
+		defer wg.Done()
+		res := r.Child("full", nil, vlib.BinPath("c13", "plain"), nil,
+			[]string{"C13_MODE=full"}, time.Duration(r.N(240, 2400))*time.Second)
+		if !res.HasState {
+			r.Inconclusive(fmt.Sprintf("full-pipeline child did not finish (exit=%d timeout=%v err=%v log=%s)", res.ExitCode, res.TimedOut, res.Err, res.Output))
+		}
+	}()
+	runHistories(r)
+	requireHist(r)
+	wg.Wait()
 	r.ScanRaceLogs(pfx)
 	r.Finish(rule)
+}
+
+var (
+	sampleMu   sync.Mutex
+	sampleSeen = map[string]bool{}
+	// which process contributes which real cases to evidence.samples (6 slots)
+	sampleKinds = map[string]map[string]bool{
+		"":      {"hist-suppressed": true, "hist-expiry-probe": true},
+		"burst": {"burst": true, "local-followup": true},
+		"full":  {"full-zone-suppression": true, "full-local-followup": true},
+	}
+)
+
+// sampleOnce keeps the first real case of each kind (two kinds per process, so
+// the evidence shows cases from every part).
+func sampleOnce(r *vlib.Run, kind string, v any) {
+	sampleMu.Lock()
+	defer sampleMu.Unlock()
+	if sampleSeen[kind] || !sampleKinds[os.Getenv("C13_MODE")][kind] {
+		return
+	}
+	sampleSeen[kind] = true
+	r.Sample(v)
+}
+
+// Required observations (AUTHORING rule 6): every path a verdict rests on must
+// have been exercised, with margin, or the run is inconclusive.
+func requireHist(r *vlib.Run) {
+	for k, v := range map[string]int64{
+		"histories": 100, "failures_recorded": 1000, "zone_failures_recorded": 150,
+		"q_suppressed": 300, "q_suppressed_ede13": 250, "q_suppressed_wire_entry": 80,
+		"suppressed_by_question_state": 80, "suppressed_by_zone_state": 150,
+		"suppressed_by_zone_state_cd": 40, "suppressed_by_zone_state_scoped": 30,
+		"must_reach_checks": 2500, "must_reach_held": 2500, "may_suppress_probes": 300,
+		"probes_after_expiry": 500, "envelope_probe_first_interval": 250, "envelope_probe_growth": 100,
+		"envelope_probe_at_max": 100, "envelope_probe_streak_max": 6, "streak_depth_impl_max": 5,
+		"probes_after_reset": 40, "useful_answers_resetting_state": 100,
+		"nearmiss_name": 200, "nearmiss_type": 40, "nearmiss_class": 40, "nearmiss_cd": 40, "nearmiss_scope": 20,
+		"nearmiss_zone-sibling": 80, "nearmiss_zone-label": 40, "nearmiss_zone-parent": 80, "nearmiss_zone-class": 40, "nearmiss_zone-above-cut": 4,
+		"killswitch_histories": 8, "killswitch_queries": 60, "killswitch_queries_over_seeded_state": 16,
+		"state_checks": 2500, "state_checks_after_eviction_or_reset": 300, "virtual_advances": 500,
+		"local_failures_injected": 60,
+	} {
+		r.Require(k, v)
+	}
+	for _, c := range append(append([]string{}, localCauses...), localBudget...) {
+		r.Require("local_followup_"+c, 3)
+	}
+	r.Require("flood_evictions_observed", 3)
+}
+
+func requireBurst(r *vlib.Run) {
+	for k, v := range map[string]int64{
+		"burst_histories": 50, "bursts_judged": 120, "bursts_count_bound_checked": 60,
+		"bursts_with_successful_probe": 20, "burst_same-name": 40, "burst_siblings": 40,
+		"burst_parked_followers_max": 40, "burst_reply_cached_failure": 300, "burst_reply_shed_or_local": 100,
+		"burst_upstream_calls_1": 20, "burst_upstream_calls_2": 20,
+	} {
+		r.Require(k, v)
+	}
+}
+
+func requireFull(r *vlib.Run) {
+	for k, v := range map[string]int64{
+		"full_cases": 9, "full_q_total": 100, "full_failures_upstream": 15, "full_zone_failures_recorded": 12,
+		"full_q_suppressed": 15, "full_suppressed_by_zone_state": 12, "full_suppressed_by_dead_zone_state": 1,
+		"full_must_reach_checks": 60, "full_must_reach_held": 50, "full_probes_after_expiry": 6,
+		"full_probes_after_reset": 2, "full_useful_answers_resetting_state": 1,
+		"full_nearmiss_zone-sibling": 4, "full_nearmiss_zone-label": 4, "full_nearmiss_zone-parent": 4,
+		"full_partly_alive_queries": 6, "full_partly_alive_answered": 6,
+		"full_killswitch_queries": 6, "full_state_checks": 100,
+		"full_local_followup_shed": 2, "full_shed_global_pool_replies": 1, "full_shed_zone_quota_replies": 1,
+		"full_local_followup_budget": 1, "full_budget_exhausted_replies": 1,
+		"full_client_left_while_parked_at_authority": 2,
+		"full_enrichment_failures_observed": 1, "full_local_followup_enrichment": 1,
+	} {
+		r.Require(k, v)
+	}
 }
